@@ -82,6 +82,7 @@ func pairsCmd(args []string) *rep.Result {
 		return res
 	}
 	type job struct {
+		s    int64 // concretisation seed of the case
 		l    *PairLine
 		pkg  *reg.Pkg
 		v    string
@@ -94,7 +95,7 @@ func pairsCmd(args []string) *rep.Result {
 		go func() {
 			defer wg.Done()
 			for j := range jobs {
-				runPair(j.l, j.pkg, &conc.Ctx{C: cp, V: cp.Variants[j.v], Seed: c.seed}, j.mode, res)
+				runPair(j.l, j.pkg, &conc.Ctx{C: cp, V: cp.Variants[j.v], Seed: j.s}, j.mode, res)
 			}
 		}()
 	}
@@ -111,7 +112,7 @@ func pairsCmd(args []string) *rep.Result {
 					continue
 				}
 				for _, m := range strings.Split(*modes, ",") {
-					jobs <- job{pl, pkg, v, m}
+					jobs <- job{s: c.seed + int64(i%13), l: pl, pkg: pkg, v: v, mode: m}
 				}
 			}
 		}
